@@ -63,7 +63,7 @@ let wm_out_str outs =
   String.concat " ; " (List.map (fun l -> String.concat " " (List.map (fun (a, b) -> Printf.sprintf "%d,%d" (int_of_z a) (int_of_z b)) l)) outs)
 (* bounded depth-first search for a run in which a reader returns a value the cell never held,
    or an older value after a newer one (a search for a failing input: never a proof) *)
-let wm_search s0 depth maxc =
+let wm_search s0 depth maxc limit =
   let seen = Hashtbl.create 100003 in
   let states = ref 0 in
   let found = ref None in
@@ -76,7 +76,7 @@ let wm_search s0 depth maxc =
       List.mem (-1) is ||
       (let rec dec = function a :: (b :: _ as r) -> a > b || dec r | _ -> false in dec is)) (wm_outputs s) in
   let rec go s d path =
-    if !found <> None then () else
+    if !found <> None || !states > limit then () else
     if bad s then found := Some (List.rev path, s) else
     if d = 0 then () else
     let key = (s.wmem, s.threads, d) in
@@ -118,6 +118,45 @@ let rec qc_flush s i =
   else s
 let pres_str = function PrOk -> "ok" | PrFull -> "full" | PrClosed -> "closed"
 let cres_str = function CrVal v -> "v" ^ string_of_int (int_of_z v) | CrEmpty -> "empty" | CrClosed -> "closed"
+
+
+(* ---- broadcaster model (Model/Broadcast.v) ---- *)
+let b_act s =
+  let j = nat_of_int (ios (String.sub s 1 (String.length s - 1))) in
+  match s.[0] with
+  | 'c' -> BComplete j | 'e' -> BError j | 'w' -> BWake j
+  | _ -> failwith ("bs act " ^ s)
+let b_op tok =
+  let starts p = String.length tok >= String.length p && String.sub tok 0 (String.length p) = p in
+  if starts "Q:" then
+    (match split_on ':' tok with
+     | [_; bits; m] ->
+         BOQuery (List.init (String.length bits) (fun i -> bits.[i] = '1'),
+                 if m = "a" then None else Some (nat_of_int (ios m)))
+     | _ -> failwith "bs Q")
+  else if starts "S:" then
+    (match split_on ':' tok with
+     | [_; jk; acts] ->
+         (match split_on '.' jk with
+          | [j; k] -> BOScript (nat_of_int (ios j), nat_of_int (ios k),
+                               List.map b_act (List.filter (fun x -> x <> "") (split_on '+' acts)))
+          | _ -> failwith "bs S")
+     | _ -> failwith "bs S")
+  else if tok = "p" then BOPoll
+  else if tok = "d" then BODrop
+  else if tok = "N" then BONotifs
+  else BOAct (b_act tok)
+let b_res_str = function
+  | BRQ -> "Q" | BRS -> "S" | BRD -> "D" | BRDash -> "-"
+  | BRN k -> "N" ^ string_of_int (int_of_nat k)
+  | BRPNone -> "P-none"
+  | BRPoll (subs, r, vs) ->
+      Printf.sprintf "P[%s]=%s" (String.concat "," (List.map (fun x -> string_of_int (int_of_nat x)) subs))
+        (match r with
+         | BPend -> "pend" | BErr -> "err"
+         | BOk -> "ok:" ^ String.concat "," (List.map (fun v -> string_of_int (int_of_z v)) vs))
+  | BRPanic subs -> "PANIC"
+  | BRFuel -> "FUEL"
 
 (* ---- pq ---- *)
 let pq_op_of tok =
@@ -348,6 +387,8 @@ let run_case line =
            Buffer.add_string out (" | " ^ string_of_int (int_of_nat s.cerr));
            Buffer.contents out
        | _ -> failwith "qcr: C n E ...")
+  | "bs" :: n :: ops ->
+      String.concat " " (List.map b_res_str (b_run (b_init (nat_of_int (ios n))) (List.map b_op ops)))
   | "wm" :: ws ->
       let (s0, rest) = wm_parse ws in
       (match rest with
@@ -359,14 +400,15 @@ let run_case line =
   | "wmsearch" :: ws ->
       let (s0, rest) = wm_parse ws in
       (match rest with
-       | ["D"; d; "C"; c] ->
-           (match wm_search s0 (ios d) (ios c) with
+       | "D" :: d :: "C" :: c :: lim ->
+           let limit = (match lim with ["L"; l] -> ios l | _ -> 2000000) in
+           (match wm_search s0 (ios d) (ios c) limit with
             | (Some (path, s), n) ->
                 Printf.sprintf "FOUND states=%d | %s | %s | %s" n
                   (String.concat " " (List.map (fun (t, c) -> Printf.sprintf "%d,%d" t c) path))
                   (wm_out_str (wm_outputs s))
                   (String.concat " " (List.map (fun (a, b) -> Printf.sprintf "%d,%d" (int_of_z a) (int_of_z b)) s.whist))
-            | (None, n) -> Printf.sprintf "NONE states=%d" n)
+            | (None, n) -> Printf.sprintf "NONE states=%d%s" n (if n > limit then " state-limit-reached" else ""))
        | _ -> failwith "wmsearch: D d C c")
   | "crw" :: ops ->
       let op_of tok = match split_on ',' tok with
